@@ -74,6 +74,7 @@ type scripted struct {
 	total   int
 	trace   []callRec
 	scratch []int // the shared stack array a re-entrant call could have written to
+	override error // when set: the error value returned instead of a sentinel
 }
 
 func (h *scripted) next() (int, error) {
@@ -92,6 +93,9 @@ func (h *scripted) next() (int, error) {
 		full[i] = 777000 + 13*k + i
 	}
 	if d.Err {
+		if h.override != nil {
+			return d.PP, h.override
+		}
 		return d.PP, sentinels[d.ID%len(sentinels)]
 	}
 	return d.PP, nil
